@@ -51,8 +51,14 @@ def miri(drv, prop, seed, nproc=12, per=40, many_seeds=4):
         return extra, viol, ["harness build failed"]
 
     def args(i, threads):
-        return ["seq", prop, "--seed", str(seed), "--from", str(i * per), "--n", str(per), "--maxlen", "600",
-                "--threads", str(threads)]
+        a = ["seq", prop, "--seed", str(seed), "--from", str(i * per), "--n", str(per), "--maxlen", "600",
+             "--threads", str(threads)]
+        # the fixed reproducers go with slice 1 only; slice 0 is the short multi-schedule slice
+        if i != 1:
+            a.append("--no-fixed")
+        if i == 0:
+            a[a.index("--n") + 1] = "8"
+        return a
 
     def one(i):
         threads = 3 if i % 3 == 0 else 1
@@ -66,10 +72,10 @@ def miri(drv, prop, seed, nproc=12, per=40, many_seeds=4):
             return i, None, "watchdog", threads
         return i, p, None, threads
 
-    # first process alone (builds the sysroot and the crate), the rest in parallel
-    results = [one(0)]
+    # warm-up alone (builds the sysroot and the crate), then all slices in parallel
+    subprocess.run(base + ["seq", prop, "--n", "0", "--no-fixed"], env=env, stdout=subprocess.DEVNULL, stderr=subprocess.DEVNULL, timeout=3600)
     with ThreadPoolExecutor(max_workers=min(nproc, 14)) as ex:
-        results += list(ex.map(one, range(1, nproc)))
+        results = list(ex.map(one, range(nproc)))
     compared = 0
     ub_reports = 0
     concurrent_runs = 0
